@@ -30,7 +30,7 @@ type gedge struct {
 type ggraph struct {
 	mods    []gmod
 	edges   []gedge
-	throwIn int // index of a module that throws at the end of its body, or -1
+	throwIn int            // index of a module that throws at the end of its body, or -1
 	extra   map[int]string // extra top-level statements per module (used by C04)
 }
 
